@@ -172,6 +172,30 @@ func genC09(g *Gen) {
 			}
 		}
 	}
+	// windows that are almost empty: the top bit, then a gap of zeros whose length sits at a machine-word
+	// boundary, then a low bit (a trailing-zero count taken from one or two limbs goes wrong exactly here);
+	// window sizes beyond 130 too — the statement is for every K >= 1
+	for _, K := range []uint{63, 64, 65, 66, 127, 128, 129, 130, 131, 160, 200, 257} {
+		for _, gap := range []uint{61, 62, 63, 64, 65, 125, 126, 127, 128, 129, 130, 191, 192, 193, K - 2} {
+			if gap+1 >= K {
+				continue
+			}
+			for _, low := range []int64{1, 5} {
+				x := new(big.Int).Lsh(one, 2*K+5)
+				x.Add(x, new(big.Int).Lsh(one, K+1+gap))
+				x.Add(x, big.NewInt(low))
+				y := new(big.Int).Lsh(one, gap+3)
+				y.Add(y, big.NewInt(low))
+				for _, v := range []*big.Int{x, y} {
+					for _, T := range []uint{0, K + 1} {
+						for _, m := range []string{"f", "s", "h"} {
+							c09Case(g, m, v, K, T)
+						}
+					}
+				}
+			}
+		}
+	}
 	// structured big values with K, T up to 130
 	for i := 0; i < g.pick(300, 3000); i++ {
 		K := uint(1 + g.R.Intn(130))
